@@ -72,6 +72,46 @@ def run(tier, seed, replay=None):
             if len(samples) < 3:
                 samples.append({"case": nm, "options": opts, "c03": o["c03"]})
             shutil.rmtree(r["dir"], ignore_errors=True)
+    # hand-written programs for constructs the generators do not produce (collision passes with and without rules,
+    # justification, line-break table, attachment, ligature components, features/languages, pass-level directives)
+    import fuzz11
+    import ttf as _ttf
+    rich = dict(fuzz11.SEEDS)
+    H = fuzz11.H
+    GL = "table(glyph) cA = glyphid(3..6) {collision.flags = 1}; cB = glyphid(7..10); endtable;\n"
+    rich["collide_norules"] = H + GL + "table(pos) pass(1) cA {shift.x = 5m}; endpass; pass(2) {CollisionFix = 3} endpass; endtable;\n"
+    rich["collide_only"] = H + GL + "table(pos) pass(1) {CollisionFix = 2} endpass; endtable;\n"
+    rich["collide_two"] = H + GL + "table(sub) cA > cB; endtable;\ntable(pos) pass(1) {CollisionFix = 1} endpass; pass(2) {CollisionFix = 2; AutoKern = 1} cA {collision.flags = 3} cB; endpass; pass(3) cB {shift.y = 3m}; endpass; endtable;\n"
+    rich["sparse_passes"] = H + GL + "table(sub) pass(2) cA > cB; endpass; pass(5) cB > cA / cA _; endpass; endtable;\ntable(pos) pass(3) cA {kern.x = 4m} cB; endpass; endtable;\n"
+    rich["lb_items"] = H + GL + "table(sub) cA > cB / # _; cB > cA / _ #; cA cB > cB cA / # _ _ #; endtable;\n"
+    rfont = _ttf.simple_font(40, post_names=[".notdef"] + ["g%d" % i for i in range(1, 40)])[0]
+    for rname in sorted(rich):
+        prog = gen.Prog()
+        prog.nglyphs = 40
+        prog.font = rfont
+        prog.raw_gdl = rich[rname]
+        for oi, opts in enumerate(OPTS_QUICK if tier == "thorough" else [[], ["-v5", "-c"], ["-v3", "-p"], ["-offsets"], ["-v2"]]):
+            nm = "rich_%s_o%d" % (rname, oi)
+            r = harness.compile_cases(build, work, [(nm, prog)], extra_args=opts)[0]
+            total += 1
+            if r["rc"] != 0 or not os.path.exists(os.path.join(r["dir"], "out.ttf")):
+                stats["rich_rejected"] += 1
+                shutil.rmtree(r["dir"], ignore_errors=True)
+                continue
+            o = harness.drive([r], ["c03"])[0]
+            bad = [l for l in o["c03"] if not l.startswith("ok ")] + [l for l in o["load"][:1] if not l.startswith("ok")]
+            f = gr2.Face(os.path.join(r["dir"], "out.ttf"))
+            engine_ok = f.ok() and f.shape([0x61, 0x62, 0x63]) is not None
+            f.close()
+            if not engine_ok:
+                bad.append("libgraphite2 rejects the font (gr_make_file_face/gr_make_seg failed)")
+            if bad:
+                d = harness.save_case(rep, r, nm)
+                rep.violation(nm, {"case": nm, "options": opts, "checker_lines": bad, "gdl": rich[rname],
+                                   "meaning": "out.ttf written with exit status 0 is not well-formed at the named table/offset/code block",
+                                   "rerun": "cd %s && printf 'font out.ttf\\nc03\\n' | %s" % (d, common.grcv_path())})
+            stats["rich_fonts_checked"] += 1
+            shutil.rmtree(r["dir"], ignore_errors=True)
     # corpus: recorded witnesses of known findings (must keep reproducing to stay listed; a fixed tree simply passes)
     for wname, rule, sig in [
         ("kf_precontext_only", "_ > c4:1 / c1 _;", "C03:engine-rejects-rule-whose-input-items-all-precede-the-first-modified-item"),
@@ -92,7 +132,7 @@ def run(tier, seed, replay=None):
                 rep.violation(wname, {"gdl": prog.raw_gdl, "meaning": "compiler exits 0 but libgraphite2 rejects the font"}, signature=sig)
     rep.coverage.update({
         "programs": len(cases), "fonts_checked": stats["fonts_checked"], "compilations": total, "rejected": rejected,
-        "options_distribution": dict(optstats),
+        "options_distribution": dict(optstats), "handwritten_programs_fonts_checked": stats["rich_fonts_checked"], "handwritten_rejected": stats["rich_rejected"],
         "traces_validated_against_impl": stats["fonts_checked"], "disagreements_checked": len(rep.violations),
         "evaluations": stats["fonts_checked"], "distinct_nontrivial": len(distinct),
         "rule": "generated programs x option sets (-v2..-v5, -c, -p, -offsets, -g, -n); one evaluation = one output font fully decoded by the strict Lean decoders, all code blocks accepted by Code.check with valid references, and accepted by libgraphite2; distinct = distinct decoder summaries",
